@@ -18,6 +18,8 @@ class LoopMixin(object):
         def go(s, it):
             if it[0] == "cursor":
                 it = ("rows", it[1])   # iterating a cursor = iterating its rows
+            if it[0] == "const" and isinstance(it[1], tuple):
+                it = ("tuple", tuple(("const", x) for x in it[1]))
             if it[0] == "tuple" and 0 < len(it[1]) <= 8 and all(is_const(x) for x in it[1]) \
                     and not any(isinstance(n, (ast.Break, ast.Continue))
                                 for n in ast.walk(node)):
@@ -47,6 +49,17 @@ class LoopMixin(object):
         self._unroll_tag = saved
         return res
 
+    _func_ranges = None
+
+    def _func_range(self, qualname):
+        if self._func_ranges is None:
+            self._func_ranges = {}
+            for f in self.repo.all_functions():
+                self._func_ranges[f.qualname] = (
+                    self.repo.modules[f.module].path, f.node.lineno,
+                    getattr(f.node, "end_lineno", f.node.lineno))
+        return self._func_ranges.get(qualname)
+
     def _assigned_names(self, node):
         names = set()
         for sub in ast.walk(node):
@@ -58,14 +71,25 @@ class LoopMixin(object):
         # statements executed during this iteration (also inside helpers the
         # body calls): their rows belong to this iteration's element
         body_sites = set()
+        callee_ranges = set()   # (path, first line, last line) of functions the body ran
         if body_events is not None:
             from .engine import flat_events
             for x, _ in flat_events(body_events, True, (), True):
                 if x["k"] in ("sql", "script", "sql_dynamic"):
                     body_sites.add(x["site"])
+                if x["k"] == "call":
+                    rng = self._func_range(x["callee"])
+                    if rng is not None:
+                        callee_ranges.add(rng)
 
         def local(t):
             if t[0] in ("row", "rows", "cursor", "lastrowid") and t[1] in body_sites:
+                return True
+            if t[0] == "coll" and isinstance(t[1], tuple) and any(
+                    t[1][0] == rp and rlo <= t[1][1] <= rhi
+                    for (rp, rlo, rhi) in callee_ranges):
+                # a collection created by a helper the body called: it
+                # belongs to this iteration
                 return True
             if t[0] == "elem" and len(t) > 2 and t[2] == loopid:
                 return True
@@ -136,8 +160,11 @@ class LoopMixin(object):
         assigned = self._assigned_names(node)
         accums = {}
 
+        exit_classes = {}
+
         def add_exit(s, iters):
             a = s.abstract(frame)
+            exit_classes.setdefault(a, set()).add("zero" if iters == 0 else "some")
             if a not in exits:
                 exits[a] = (s, iters)
 
@@ -214,8 +241,14 @@ class LoopMixin(object):
                               "pc": s2.pc, "handlers": s2.handlers}] + s2.events
                         results.append((s2, o))
         self.loop_rounds[loopid] = max(self.loop_rounds.get(loopid, 0), maxiters)
+        from .terms import strip_wrappers
+        coll = strip_wrappers(iterterm) if (is_for and iterterm is not None) else None
         for a, (s, iters) in exits.items():
             s.events = pre_events + [loop_ev]
+            if coll is not None and coll[0] == "coll" and len(exit_classes.get(a, ())) == 1:
+                # a for loop runs at least once iff what it iterates is not
+                # empty (only when this exit state is reached in one way)
+                self.learn(coll, "some" in exit_classes[a], s)
             env_x = s.envs[frame.fid]
             self._widen(s, frame, assigned, loopid)
             # an accumulator denotes its base value after zero iterations too
